@@ -164,6 +164,10 @@ def deep_path_flags(cg, rts):
                          (isinstance(a, dict) and any(isinstance(x, PathT) for x in a.values()))
                 if inside and several:
                     return ["path-inside-container-argument-of-multi-parameter-callable"]
+                # ... or inside a MAPPING argument one of whose keys contains "path": the mapping has to be written escaped, and an
+                # escaped mapping is a literal (its values are not looked at)
+                if isinstance(a, dict) and any(isinstance(k, str) and "path" in k for k in a) and any(isinstance(x, PathT) for x in a.values()):
+                    return ["path-inside-mapping-argument-with-path-like-key"]
     return []
 
 
